@@ -1,21 +1,296 @@
-import PPModel.Mod.CompressedRe
+import PPProofs.Lemmas.WordPaths
+import PPProofs.Lemmas.Literal
+import PPProofs.Lemmas.Ranges
+import PPProofs.Lemmas.OneOf
+import PPProofs.Lemmas.CompressedRe
 /-!
 # C17 — alternative matching strategies for the same element are equivalent
+
+Models (`PPModel/Mod`): `WordPaths` (Word.__init__, both parseImpl's, Literal variants), `OneOf`,
+`CompressedRe`, `Ranges` (_collapse_string_to_ranges, _escape_regex_range_chars, srange), `ReLite`
+(the regex fragment: AST, `render` to pattern text, `parse`, backtracking matcher `ends`/`matchAt`/`fullMatch`).
+
+All statements quantify over ALL constructor arguments, inputs and positions; nothing is bounded.
+Regex statements are about the ReLite semantics of the AST whose `render` is the text pyparsing
+generates (text equality and the `parse ∘ render` round trip are checked per generated case on
+every run; for character classes the text level is proved here: `ranges_text`, `escaped_class_text`).
 -/
 namespace PP.C17
 open PP.ReLite PP.Ranges PP.WordPaths PP.OneOf PP.CompressedRe
 
-/-- the two paths of `Word('a', max=3)` / its slow twin differ on `'aaaa'` (finding word_max_slow_strict):
-    slow path (forced on the same object) raises, regex path returns 3 -/
+/-! ## Word -/
+
+/-- the declarative reading of the constructed Word: an initial character, then the longest run of
+    body characters, capped at `maxLen`, failing below `minLen` (`WordPaths.wordSpec`) -/
+def specOf (w : Word) (s : List Char) (loc : Nat) : Option Nat :=
+  wordSpec w.initSet.contains w.bodySet.contains w.minLen w.maxLen s loc
+
+/-- which characters the constructed Word uses. The second clause shows the constructor quirk
+    (finding word_exclude_all_body): when `exclude_chars` removes every body character the body silently
+    becomes the initial set. -/
+theorem word_sets (a : WordArgs) (w : Word) (h : mkWord a = some w) (c : Char) :
+    (c ∈ w.initSet ↔ c ∈ a.init ∧ c ∉ a.excl) ∧
+    ((∃ d ∈ a.body, d ∉ a.excl) → (c ∈ w.bodySet ↔ c ∈ a.body ∧ c ∉ a.excl)) ∧
+    ((∀ d ∈ a.body, d ∈ a.excl) → w.bodySet = w.initSet) := by
+  obtain ⟨hi, hb, -⟩ := mkWord_facts a w h
+  have hrm : ∀ (l : List Char) x, x ∈ removeAll l a.excl ↔ x ∈ l ∧ x ∉ a.excl := by
+    intro l x; simp [removeAll]
+  have hba : ∀ x, x ∈ bodyArg a ↔ x ∈ a.body ∧ x ∉ a.excl := by
+    intro x
+    unfold bodyArg
+    split
+    · exact hrm _ x
+    · rename_i hc
+      simp only [Bool.and_eq_true, Bool.not_eq_eq_eq_not, Bool.not_true, not_and,
+        Bool.not_eq_false] at hc
+      by_cases he : a.excl.isEmpty = true
+      · have : a.excl = [] := by simpa using he
+        simp [this]
+      · have he' : a.excl.isEmpty = false := by simpa using he
+        have hb0 : a.body.isEmpty = true := hc he'
+        have : a.body = [] := by simpa using hb0
+        simp [this]
+  refine ⟨?_, ?_, ?_⟩
+  · rw [hi]; unfold initSetOf; rw [mem_sortU]
+    split
+    · rename_i he
+      have : a.excl = [] := by simpa using he
+      simp [this]
+    · exact hrm _ c
+  · rintro ⟨d, hd1, hd2⟩
+    rw [hb]; unfold bodySetOf
+    have : (bodyArg a).isEmpty = false := by
+      cases hba' : bodyArg a with
+      | nil => have := (hba d).mpr ⟨hd1, hd2⟩; rw [hba'] at this; cases this
+      | cons x xs => rfl
+    rw [this]; simp only [Bool.false_eq_true, if_false]
+    rw [mem_sortU]; exact hba c
+  · intro hall
+    rw [hb, hi]; unfold bodySetOf
+    have : (bodyArg a).isEmpty = true := by
+      cases hba' : bodyArg a with
+      | nil => rfl
+      | cons x xs =>
+        have := (hba x).mp (by rw [hba']; simp)
+        exact absurd (hall x this.1) this.2
+    rw [this]; rfl
+
+/-- **complete description of `Word.parseImpl`** (as_keyword off): the spec, except that when `max` was
+    given and the character after the capped run is another body character, it fails (strict max). -/
+theorem word_slow_char (a : WordArgs) (w : Word) (h : mkWord a = some w) (hkw : a.asKeyword = false)
+    (s : List Char) (loc : Nat) :
+    slowPath w s loc =
+      match specOf w s loc with
+      | some e => if w.maxSpecified && charIn w.bodySet s e then none else some e
+      | none => none := by
+  obtain ⟨-, -, -, hml, -, -, hk, -⟩ := mkWord_facts a w h
+  apply slowPath_char w s loc
+  · intro m hm
+    rw [hml] at hm; unfold maxLenOf at hm
+    split at hm
+    · injection hm with hm; omega
+    · cases hm
+  · rw [hk]; exact hkw
+
+/-- **word_slow_spec**: `Word.parseImpl` = "longest run init·body*, capped at max, fail below min",
+    under exactly the hypotheses the proof forces: as_keyword off, and either `max` not given or the
+    character after the capped run is not a body character. -/
+theorem word_slow_spec (a : WordArgs) (w : Word) (h : mkWord a = some w) (hkw : a.asKeyword = false)
+    (s : List Char) (loc : Nat)
+    (hstrict : w.maxSpecified = true →
+      charIn w.bodySet s (runEnd w.bodySet.contains w.maxLen s loc) = false) :
+    slowPath w s loc = specOf w s loc := by
+  rw [word_slow_char a w h hkw]
+  cases hsp : specOf w s loc with
+  | none => rfl
+  | some e =>
+    simp only []
+    by_cases hms : w.maxSpecified = true
+    · have he : e = runEnd w.bodySet.contains w.maxLen s loc := by
+        unfold specOf wordSpec at hsp
+        unfold runEnd
+        cases hs : s[loc]? with
+        | none => rw [hs] at hsp; cases hsp
+        | some c =>
+          rw [hs] at hsp
+          simp only [] at hsp
+          split at hsp
+          · split at hsp
+            · cases hsp
+            · injection hsp with hsp; exact hsp.symm
+          · cases hsp
+      rw [he, hstrict hms]; simp
+    · have : w.maxSpecified = false := by simpa using hms
+      simp [this]
+
+/-- **word_re_spec**: matching the regex that `Word.__init__` builds (the AST whose rendering is
+    `reString`) = the same spec, for all arguments (as_keyword off); no side condition on `max`. -/
+theorem word_re_spec (a : WordArgs) (w : Word) (r : Re) (h : mkWord a = some w) (hr : w.re = some r)
+    (hkw : a.asKeyword = false) (s : List Char) (loc : Nat) :
+    rePath r s loc = specOf w s loc := by
+  obtain ⟨hi, hb, hmn, hml, h1, h2, -, -, hre⟩ := mkWord_facts a w h
+  rw [hre] at hr
+  unfold reOf at hr
+  split at hr
+  · cases hr
+  · split at hr
+    · cases hr
+    · injection hr with hr
+      subst hr
+      unfold rePath specOf wordRe
+      rw [hkw, hi, hb, hmn, hml]
+      simp only [Bool.false_eq_true, if_false]
+      exact wordReCore_spec ranges_denote _ _ _ _ h1 h2 s loc
+
+/-- **word_paths_agree_partial**: whichever `parseImpl` is installed, the result is the same —
+    PARTIAL: proved outside two regions where the paths really differ (the theorems below are the
+    witnesses): (1) `max` given and the capped run is followed by another body character,
+    (2) as_keyword. The full statement `∀ a w r s loc, rePath r s loc = slowPath w s loc` is false. -/
+theorem word_paths_agree_partial (a : WordArgs) (w : Word) (r : Re) (h : mkWord a = some w)
+    (hr : w.re = some r) (hkw : a.asKeyword = false) (s : List Char) (loc : Nat)
+    (hstrict : w.maxSpecified = true →
+      charIn w.bodySet s (runEnd w.bodySet.contains w.maxLen s loc) = false) :
+    rePath r s loc = slowPath w s loc := by
+  rw [word_re_spec a w r h hr hkw, word_slow_spec a w h hkw s loc hstrict]
+
+/-- the two paths of `Word('a', max=3)` differ on `'aaaa'` (finding word_max_slow_strict): the installed
+    regex path returns 3, the character loop forced on the same object raises -/
 theorem word_max_paths_differ :
     ∃ w, mkWord { init := ['a'], max := 3 } = some w ∧
       parseWord w "aaaa".toList 0 = some 3 ∧ slowPath w "aaaa".toList 0 = none := by
   refine ⟨_, rfl, ?_, ?_⟩ <;> decide
 
-/-- as_keyword: regex path uses `\b`, the character loop tests body characters (finding word_askeyword_paths) -/
+/-- as_keyword: the regex path uses `\b`, the character loop tests body characters
+    (finding word_askeyword_paths) -/
 theorem word_askeyword_paths_differ :
     ∃ w, mkWord { init := ['a', 'b'], body := ['c', 'd'], asKeyword := true } = some w ∧
       parseWord w "xacd".toList 1 = none ∧ slowPath w "xacd".toList 1 = some 4 := by
   refine ⟨_, rfl, ?_, ?_⟩ <;> decide
+
+/-- finding word_exclude_all_body in the model: `Word('a','b',exclude_chars='b')` matches `'aaa'` -/
+theorem word_exclude_all_body_witness :
+    ∃ w, mkWord { init := ['a'], body := ['b'], excl := ['b'] } = some w ∧
+      parseWord w "aaa".toList 0 = some 3 := by
+  refine ⟨_, rfl, ?_⟩; decide
+
+-- non-vacuity: a Word with a metacharacter class, different body, min/max, on an input where the
+-- hypotheses hold and the match is non-trivial
+example : ∃ w r, mkWord { init := ['a', '-'], body := ['0', '1', ']'], min := 2, max := 4 } = some w ∧
+    w.re = some r ∧ render r = "[\\-a][01\\]]{1,3}".toList ∧
+    rePath r "x-01]!".toList 1 = some 5 ∧ slowPath w "x-01]!".toList 1 = some 5 ∧
+    specOf w "x-01]!".toList 1 = some 5 ∧
+    charIn w.bodySet "x-01]!".toList (runEnd w.bodySet.contains w.maxLen "x-01]!".toList 1) = false := by
+  refine ⟨_, _, rfl, rfl, ?_, ?_, ?_, ?_, ?_⟩ <;> decide
+
+/-! ## Literal -/
+
+/-- **literal_single_char_same**: the one-character class `_SingleCharLiteral` computes what the
+    general `Literal.parseImpl` computes -/
+theorem literal_single_char_same (c : Char) (s : List Char) (loc : Nat) :
+    literalSingle c s loc = literalLong [c] s loc := literalSingle_eq_long c s loc
+
+/-- **literal_spec**: whatever class `Literal.__new__` picks (Empty / _SingleCharLiteral / Literal),
+    `Literal(m)` succeeds at `loc` iff the text starts with `m` there (inside the text unless `m` is
+    empty), ending at `loc + len(m)` -/
+theorem literal_spec (m s : List Char) (loc : Nat) :
+    literal m s loc =
+      if isPrefixAt m s loc && (m.isEmpty || decide (loc < s.length)) then some (loc + m.length)
+      else none := literal_spec' m s loc
+
+example : literal "ab".toList "xab".toList 1 = some 3 ∧ literal "a".toList "xab".toList 1 = some 2 ∧
+    literal "a".toList "xab".toList 3 = none := by decide
+
+/-! ## one_of -/
+
+/-- **termination of the reorder loop** is proved, not assumed: the fuel `reorder` supplies suffices -/
+theorem oneof_reorder_terminates (ci : Bool) (syms : List Sym) : ∃ out, reorder ci syms = some out :=
+  reorder_terminates ci syms
+
+/-- **oneof_reorder_post**: after the loop no symbol is (case-folded-)equal to, or a masked proper
+    prefix of, a LATER one; the result is a permutation of a sub-list of the input; every input symbol
+    still has a (case-folded-)equal representative. -/
+theorem oneof_reorder_post (ci : Bool) (syms out : List Sym) (h : reorder ci syms = some out) :
+    NoMask ci out ∧ (∃ l, l.Sublist syms ∧ out.Perm l) ∧
+      (∀ y ∈ syms, ∃ z ∈ out, isEqual ci z y = true) :=
+  reorder_post ci syms out h
+
+/-- **oneof_longest** (MatchFirst strategy, caseless or not, any symbol order): the result is a
+    listed symbol that matches at `loc`, ends at `loc + len`, and no listed matching symbol is longer;
+    no result iff no listed symbol matches. -/
+theorem oneof_longest (ci : Bool) (syms : List Sym) (s : List Char) (loc : Nat) :
+    match oneOf ci false syms s loc with
+    | some (e, y) => y ∈ syms ∧ litMatch ci y s loc = true ∧ e = loc + y.length ∧
+        ∀ z ∈ syms, litMatch ci z s loc = true → z.length ≤ y.length
+    | none => ∀ z ∈ syms, litMatch ci z s loc = false :=
+  oneOf_matchFirst_longest ci syms s loc
+
+/-- **oneof_paths_agree_partial**: the regex strategy returns exactly what the MatchFirst strategy returns
+    (end position and token) — PARTIAL: proved for caseless = False; for caseless = True
+    (`re.IGNORECASE` + the `symbol_map` parse action vs `CaselessLiteral`) the agreement is only checked
+    by the correspondence/oracle legs. -/
+theorem oneof_paths_agree_partial (syms : List Sym) (s : List Char) (loc : Nat) :
+    oneOf false true syms s loc = oneOf false false syms s loc :=
+  oneOf_regex_eq_matchFirst syms s loc
+
+example : reorder false ["a".toList, "ab".toList, "b".toList, "abc".toList, "ab".toList] =
+    some ["abc".toList, "ab".toList, "a".toList, "b".toList] := by decide
+example : oneOf false true ["a".toList, "ab".toList, "abc".toList] "xabd".toList 1 = some (3, "ab".toList) ∧
+    oneOf true false ["a".toList, "AB".toList] "xabd".toList 1 = some (3, "AB".toList) := by decide
+
+/-! ## character classes, srange -/
+
+/-- **ranges_denote**: the class items `_collapse_string_to_ranges` writes match exactly the given
+    characters (any characters, incl. the metacharacters `\ ^ - [ ]`) -/
+theorem ranges_denote (cs : List Char) (c : Char) : clsMem (collapseItems cs) c = true ↔ c ∈ cs :=
+  Ranges.ranges_denote cs c
+
+/-- **ranges_text**: at the level of the pattern text: the text `_collapse_string_to_ranges(cs)` followed
+    by `]` parses (as a class body) to items that match exactly the characters of `cs` -/
+theorem ranges_text (cs : List Char) (hne : cs ≠ []) (rest : List Char) :
+    ∃ items, parseCls (collapse cs ++ ']' :: rest) = some (items, rest) ∧
+      ∀ c, clsMem items c = true ↔ c ∈ cs :=
+  collapse_text_denote cs hne rest
+
+/-- `_escape_regex_range_chars` (seven sequential `str.replace`) is a character-wise map -/
+theorem escapeRangeChars_charwise (s : List Char) :
+    escapeRangeChars s = s.flatMap (fun c => renderItem (escItem c)) :=
+  Ranges.escapeRangeChars_charwise s
+
+/-- **escaped_class_text**: the class text one_of / make_compressed_re build from single characters with
+    `_escape_regex_range_chars` parses to items matching exactly those characters -/
+theorem escaped_class_text (syms : List Char) (hne : syms ≠ []) (rest : List Char) :
+    ∃ items, parseCls (escapeRangeChars syms ++ ']' :: rest) = some (items, rest) ∧
+      ∀ c, clsMem items c = true ↔ c ∈ syms :=
+  escapeRangeChars_text_denote syms hne rest
+
+/-- **srange_inverts_partial**: `srange("[" + _collapse_string_to_ranges(cs) + "]")` = the sorted distinct
+    characters of `cs` — PARTIAL: only for sets without blank/tab/newline/CR. For sets with whitespace
+    the statement is false of the code (finding srange_drops_whitespace, witness below). -/
+theorem srange_inverts_partial (cs : List Char) (hne : cs ≠ []) (hws : ∀ c ∈ cs, isWs c = false) :
+    srange ('[' :: collapse cs ++ [']']) = some (sortU cs) :=
+  Ranges.srange_inverts_partial cs hne hws
+
+/-- finding srange_drops_whitespace in the model: `srange("[ a-c]") == "abc"` -/
+theorem srange_whitespace_witness :
+    collapse " abc".toList = " a-c".toList ∧ srange "[ a-c]".toList = some "abc".toList := by
+  constructor <;> decide
+
+example : collapse "-]a[^cb\\".toList = "\\-\\[-\\^a-c".toList ∧
+    srange ('[' :: collapse "-]a[^cb\\".toList ++ [']']) = some "-[\\]^abc".toList := by
+  constructor <;> decide
+
+/-! ## make_compressed_re -/
+
+/-- **compressed_re_language**: for all word lists and all `max_level`, the regex (AST; its rendering is
+    the returned text) fully matches exactly the given words. -/
+theorem compressed_re_language (words : List W) (maxLevel : Nat) (r : Re)
+    (h : makeCompressedRe words maxLevel = some r) (w : W) :
+    fullMatch false r w = true ↔ w ∈ words :=
+  CompressedRe.compressed_re_language words maxLevel r h w
+
+example : ∃ r, makeCompressedRe ["abc".toList, "abd".toList, "ab".toList, "x.".toList] 2 = some r ∧
+    render r = "a(?:b[cd]?)|x\\.".toList ∧ fullMatch false r "abd".toList = true ∧
+    fullMatch false r "a".toList = false := by
+  refine ⟨_, rfl, ?_, ?_, ?_⟩ <;> decide
 
 end PP.C17
